@@ -39,6 +39,45 @@ META = {
 }
 
 
+def check_tables(ctx, rep, R1="I1", R2="I2"):
+    fo = ctx.fold
+    # ---- I1 / I2
+    try:
+        alpha = fo.global_value("selfies.constants", "INDEX_ALPHABET")
+    except FoldError as e:
+        alpha = None
+        rep.ob(R1, False, None, None, loc="selfies/constants.py", construct="INDEX_ALPHABET",
+               witness="index alphabet is not a closed constant table: %s" % e, key="alphabet/unfoldable")
+    try:
+        code = fo.global_value("selfies.constants", "INDEX_CODE")
+    except FoldError as e:
+        code = None
+        rep.ob(R2, False, None, None, loc="selfies/constants.py", construct="INDEX_CODE",
+               witness="index code is not a plain closed table: %s" % e, key="code/unfoldable")
+    if alpha is not None:
+        alpha = tuple(alpha) if isinstance(alpha, (list, tuple)) else None
+        for k, want in enumerate(SPEC.INDEX_SYMBOLS):
+            got = alpha[k] if alpha is not None and k < len(alpha) else None
+            rep.ob(R1, got == want, None, None, loc="selfies/constants.py", construct="INDEX_ALPHABET[%d]" % k,
+                   how="equals documented symbol %s" % want, key="alphabet/%d" % k,
+                   witness=None if got == want else "digit %d is %r, documented %r" % (k, got, want))
+        ok = alpha is not None and len(alpha) == SPEC.INDEX_BASE
+        rep.ob(R1, ok, None, None, loc="selfies/constants.py", construct="len(INDEX_ALPHABET)", how="16 symbols",
+               key="alphabet/len", witness=None if ok else "index alphabet has %s symbols" % (len(alpha) if alpha else "?"))
+        # cross-check of the doc table through the CHANGELOG renaming
+        ren = SPEC.legacy_table()
+        doc = tuple(ren.get(s, s) for s in SPEC.DOC_INDEX_SYMBOLS_V1)
+        rep.ob(R1, doc == SPEC.INDEX_SYMBOLS, None, None, loc="docs/source/derivation.rst", construct="doc index table via v2 renaming",
+               how="specification tables agree", key="alphabet/doc-consistent")
+    if code is not None:
+        want = {s: i for i, s in enumerate(SPEC.INDEX_SYMBOLS)}
+        ok = isinstance(code, dict) and type(code) is dict and code == want
+        rep.ob(R2, ok, None, None, loc="selfies/constants.py", construct="INDEX_CODE",
+               how="inverse enumeration of the documented alphabet", key="code/inverse", nontrivial=True,
+               witness=None if ok else "INDEX_CODE differs from the inverse of the documented alphabet: %s"
+               % sorted(set(want.items()) ^ set(code.items() if isinstance(code, dict) else []))[:4])
+
+
 def check_decoder_side(ctx, rep, R3="I3", R4="I4"):
     # ---- I3 / I4 decoder side
     roles = decmodel.find_roles(ctx)
@@ -204,42 +243,7 @@ def check_encoder_side(ctx, rep, R5="I5"):
 
 
 def run(ctx, rep):
-    fo = ctx.fold
-    # ---- I1 / I2
-    try:
-        alpha = fo.global_value("selfies.constants", "INDEX_ALPHABET")
-    except FoldError as e:
-        alpha = None
-        rep.ob("I1", False, None, None, loc="selfies/constants.py", construct="INDEX_ALPHABET",
-               witness="index alphabet is not a closed constant table: %s" % e, key="alphabet/unfoldable")
-    try:
-        code = fo.global_value("selfies.constants", "INDEX_CODE")
-    except FoldError as e:
-        code = None
-        rep.ob("I2", False, None, None, loc="selfies/constants.py", construct="INDEX_CODE",
-               witness="index code is not a plain closed table: %s" % e, key="code/unfoldable")
-    if alpha is not None:
-        alpha = tuple(alpha) if isinstance(alpha, (list, tuple)) else None
-        for k, want in enumerate(SPEC.INDEX_SYMBOLS):
-            got = alpha[k] if alpha is not None and k < len(alpha) else None
-            rep.ob("I1", got == want, None, None, loc="selfies/constants.py", construct="INDEX_ALPHABET[%d]" % k,
-                   how="equals documented symbol %s" % want, key="alphabet/%d" % k,
-                   witness=None if got == want else "digit %d is %r, documented %r" % (k, got, want))
-        ok = alpha is not None and len(alpha) == SPEC.INDEX_BASE
-        rep.ob("I1", ok, None, None, loc="selfies/constants.py", construct="len(INDEX_ALPHABET)", how="16 symbols",
-               key="alphabet/len", witness=None if ok else "index alphabet has %s symbols" % (len(alpha) if alpha else "?"))
-        # cross-check of the doc table through the CHANGELOG renaming
-        ren = SPEC.legacy_table()
-        doc = tuple(ren.get(s, s) for s in SPEC.DOC_INDEX_SYMBOLS_V1)
-        rep.ob("I1", doc == SPEC.INDEX_SYMBOLS, None, None, loc="docs/source/derivation.rst", construct="doc index table via v2 renaming",
-               how="specification tables agree", key="alphabet/doc-consistent")
-    if code is not None:
-        want = {s: i for i, s in enumerate(SPEC.INDEX_SYMBOLS)}
-        ok = isinstance(code, dict) and type(code) is dict and code == want
-        rep.ob("I2", ok, None, None, loc="selfies/constants.py", construct="INDEX_CODE",
-               how="inverse enumeration of the documented alphabet", key="code/inverse", nontrivial=True,
-               witness=None if ok else "INDEX_CODE differs from the inverse of the documented alphabet: %s"
-               % sorted(set(want.items()) ^ set(code.items() if isinstance(code, dict) else []))[:4])
+    check_tables(ctx, rep)
     rep.floor("I1", 17)
 
     arities, reader = check_decoder_side(ctx, rep)
